@@ -94,7 +94,11 @@ class Lazy:
         for p in (b'/../secret.txt', b'/a/../../secret.txt', b'/./../secret.txt', b'/a/b.txt/../../../secret.txt',
                   b'/../root-evil/b.txt', b'/..%2fsecret.txt', b'/%2e%2e/secret.txt', b'/..;/secret.txt',
                   b'/a/../b.txt', b'/a/./b.txt', b'/a//b.txt', b'/b.txt?../secret.txt', b'/../root/b.txt',
-                  b'/big.bin', b'/a/b.txt', b'/a/a', b'/..', b'/../a', b'/../b.txt', b'/a/../../a', b'/a/../../b.txt'):
+                  b'/big.bin', b'/a/b.txt', b'/a/a', b'/..', b'/../a', b'/../b.txt', b'/a/../../a', b'/a/../../b.txt',
+                  # a query whose text walks back into the root by name must not whitewash the path before it
+                  b'/../secret.txt?/../root', b'/../secret.txt?/../root/b.txt', b'/a/../../secret.txt?x/../root/a',
+                  b'/../root-evil/b.txt?/../../root', b'/../secret.txt?../root', b'/../b.txt?/../root/a/b.txt',
+                  b'/b.txt?/../../secret.txt', b'/a/b.txt?/../../../secret.txt'):
             if p not in seen:
                 seen.add(p)
                 self.paths.append(p)
